@@ -1456,6 +1456,12 @@ def frame_drop(E, f, args, node):
     return Frame(E.new_ident(), f.n, cols)
 
 
+@method('Frame.keys')
+def frame_keys(E, f, args, node):
+    """DataFrame.keys(): the column labels"""
+    return Marker('columns', f)
+
+
 @method('Frame.pop')
 def frame_pop(E, f, args, node):
     """DataFrame.pop(col): removes the column from the table IN PLACE and returns it as a Series named col"""
